@@ -21,7 +21,12 @@ def stub_get_position(ctx):
     """cpr::get_position is decided under C05; here it yields no position or an arbitrary one"""
     from ..ai.summaries import some, NONE
     tup = ctx.args[0]
-    ctx.ip.event(ctx.st, "get_position_call", args=tup, fn=ctx.fr.fn["path"])
+    vals = []
+    if isinstance(tup, TupleVal):
+        for x in tup.fields:
+            vals.append(ctx.ip.read_loc(ctx.st, x.loc) if isinstance(x, RefVal) else x)
+    ctx.ip.event(ctx.st, "get_position_call", args=tuple(vals), fn=ctx.fr.fn["path"])
+    ctx.fr.tag = "position_fn"
     pos = AdtVal("adsb_deku::cpr::Position", 0, [FloatVal(64, term=("sym", "cpr_lat")), FloatVal(64, term=("sym", "cpr_lon"))], vname="Position")
     s2 = ctx.st.copy()
     return ctx.ret_states([(ctx.st, some(pos)), (s2, NONE)])
@@ -45,7 +50,7 @@ def run_action(prog, p, **opts):
     key = (prog.tree_hash, prog.config, p.label, tuple(sorted((k, repr(v)) for k, v in opts.items())))
     if key in _CACHE:
         return _CACHE[key]
-    o = dict(max_seconds=120, counter_delta=True, stubs=STUBS)
+    o = dict(max_seconds=120, counter_delta=True, stubs=STUBS, merge_returns=False)
     o.update(opts)
     ip = entry.new_interp(prog, **o)
     st = State()
@@ -69,5 +74,5 @@ def map_cells(ip, st, ploc):
     out = []
     if isinstance(m, Opaque) and m.kind == "btreemap":
         for kf, cell in m.get("cells"):
-            out.append((kf, st.heap[cell[1]]))
+            out.append((kf, st.heap[cell.loc[1]]))
     return out
